@@ -8,6 +8,7 @@ import Lattigo.Model.Store
                                       the (small integer) scales given to op0 / op1 in the model run
     inputs <op> <s0> <s1>             are all arguments other than the output unchanged
                                       (`same-as-fresh` = unchanged, `differs` = some argument rewritten)
+    hist <op> <s0> <s1>               the call into a used receiver / with used buffers against the clean call
     addhist <d0> <d1> <dOut>          ct+ct Add with an output that previously had degree dOut
     aliasd <opD> <pattern> <d0> <d1> <dOut> <s0> <s1>
                                       degree-aware operations (operands of degree d0, d1 ≤ 2; a distinct receiver
@@ -17,6 +18,7 @@ import Lattigo.Model.Store
                                       call ⇒ levels of the receiver's polynomials after it, or `err` / `panic`
   ops: ckksEval ckksMul ckksMulRelin bgvTensor bgvTensorRelin bgvTensorSI bgvTensorSIRelin
        bgvMatchScale bgvAddBig bgvMulBig rlweAut rlwePTS:<n> divRound divRoundNTT
+       encryptSk decryptNTT decryptCoeff ckgGenShare evkGenShareP:<1|2> evkGenShareNoP:<1|2|3>
   opD: ckksAdd ckksSub ckksMul ckksMulRelin bgvMul bgvMulRelin
   opS: addLike ckksMul ckksMulRelin bgvMul bgvMulRelin bgvMulSI bgvMulRelinSI unaryBig rlweAut rlwePTS
   patterns: distinct out=op0 out=op1 op0=op1 all
@@ -39,6 +41,15 @@ def parseOp? (s : String) : Option Op :=
   | "rlweAut" => some .rlweAut
   | "divRound" => some .divRound
   | "divRoundNTT" => some .divRoundNTT
+  | "encryptSk" => some .encryptSk
+  | "decryptNTT" => some (.decrypt true)
+  | "decryptCoeff" => some (.decrypt false)
+  | "ckgGenShare" => some .ckgGenShare
+  | "evkGenShareP:1" => some (.evkGenShare true 1)
+  | "evkGenShareP:2" => some (.evkGenShare true 2)
+  | "evkGenShareNoP:1" => some (.evkGenShare false 1)
+  | "evkGenShareNoP:2" => some (.evkGenShare false 2)
+  | "evkGenShareNoP:3" => some (.evkGenShare false 3)
   | _ =>
     match s.splitOn ":" with
     | ["rlwePTS", n] => (parseNat? n).bind fun k => if k = 0 ∨ k > 4096 then none else some (.rlwePTS k)
@@ -107,6 +118,10 @@ def handle (toks : List String) : String :=
   | ["inputs", op, s0, s1] =>
     match parseOp? op, parseInt? s0, parseInt? s1 with
     | some o, some x, some y => showOutcome (predictInputs o x y)
+    | _, _, _ => badOp
+  | ["hist", op, s0, s1] =>
+    match parseOp? op, parseInt? s0, parseInt? s1 with
+    | some o, some x, some y => showOutcome (predictHistory o x y)
     | _, _, _ => badOp
   | ["addhist", d0, d1, dOut] =>
     match parseNat? d0, parseNat? d1, parseNat? dOut with
